@@ -100,7 +100,9 @@ def export_import(rnd, n_each):
     out = []
     for h in mixed_histories(rnd, n_each, "X"):
         s = _strip(h, "export")
-        out.append(insert_at(rnd, s, [{"op": "export_import"}]))
+        # two of three exports are taken at a stake-recalculation height (the behaviour of the new chain is compared from there on);
+        # the others anywhere (round trip of the state only, see PropsSync.Folded)
+        out.append(insert_at(rnd, s, [{"op": "export_import", "align": rnd.random() < 0.67}]))
     return out
 
 
